@@ -173,6 +173,20 @@ CHECKS = {
         "from the same ICU build; translator for the rule tables; bounded differential execution.",
    technique="Lean 4 proof (pipeline_per_line, apply_eq_spec) over generated rule tables + correspondence run",
    design="6/C19"),
+ "C20": dict(
+   text="Partial proof plus sanitizer-observed correspondence. Proved in Lean (kernel-checked) for all argument values: the number "
+        "formatters behind the output streams never touch more bytes than ToStringBuf<T>::kBytes reserves, for every "
+        "uint16/int16/uint32/int32/uint64/int64 value (incl. the 8/16-byte SSE stores) and every float/double (all sign, digit "
+        "count and decimal point combinations double-conversion can produce, plus inf/NaN, including the StringBuilder's NUL), with "
+        "kBytes regenerated from the headers on every run; together with the termination/in-bounds theorems of the other "
+        "properties (C13 probing, C02 reader, C07 wrap_lines, C14 Murmur reads, C08 record count/back(), C17 tiling). The model's "
+        "byte counts are tied to util::ToString by sentinel-buffer measurement. Everything else - all 24 executables on an "
+        "adversarial corpus under ASan+UBSan with timeouts - is observation, not proof.",
+   note="Trusted: Lean kernel + standard axioms for the listed obligations; double-conversion's digit/exponent ranges are a parameter; "
+        "memory safety of the remaining code is only observed by sanitizers on the corpus (UBSan checks for shift-base, signed "
+        "overflow, alignment and vptr are disabled, see DESIGN).",
+   technique="Lean 4 proof of the formatter bounds over generated kBytes + sanitizer/timeout corpus on all executables",
+   design="6/C20"),
 }
 
 NOT_APPLICABLE = []
